@@ -188,6 +188,7 @@ package core
 //@   props C16 C06 C01
 //@   terminates
 //@   requires l != nil
+//@   retains chars
 //@   assigns *l
 //@   ensures *l == chars
 
@@ -527,3 +528,11 @@ package core
 //@   requires k != nil
 //@   pure
 //@   ensures result == k.matched
+
+//@ func MacroKeys
+//@   props C18 C01
+//@   terminates
+//@   requires keys != nil
+//@   pure
+//@   ensures keys.mustWait ==> len(result) == 0
+//@   ensures !keys.mustWait ==> result == keys.matched
